@@ -1173,6 +1173,31 @@ pub fn core_ops_for(prop: &str) -> Vec<Op> {
     }
 }
 
+/// every operation of every property's alphabet: an item that one property's alphabet holds and a
+/// sibling's does not (a zero withdrawal, a cancelling mint, a second script voter) is exactly where a
+/// change slips through, so each builder property also explores the union to a small depth
+pub fn union_ops() -> Vec<Op> {
+    let mut v: Vec<Op> = Vec::new();
+    for p in ["C05", "C16", "C18", "C09"] {
+        for op in ops_for(p) {
+            if !v.contains(&op) {
+                v.push(op);
+            }
+        }
+    }
+    v
+}
+
+pub fn union_ops_for(prop: &str) -> Vec<Op> {
+    let mut v = union_ops();
+    if prop == "C03" {
+        // datum 3 is decoded from a non-minimal encoding and kept verbatim by design (C04): it is not a
+        // value of the typed API, and the shortest-form rule of C03 does not apply to it
+        v.retain(|op| *op != Op::ExtraDatum(3));
+    }
+    v
+}
+
 pub fn methods_for(prop: &str, tier: Tier) -> Vec<Method> {
     match prop {
         "C05" | "C06" | "C07" | "C03" => {
@@ -1283,8 +1308,11 @@ pub fn state_key(st: &St) -> u128 {
 }
 
 pub fn builder_scenario(prop: &'static str, tier: Tier, deep: bool) -> BoxedScenario {
+    builder_scenario_over(prop, tier, deep, if deep { core_ops_for(prop) } else { ops_for(prop) })
+}
+
+pub fn builder_scenario_over(prop: &'static str, tier: Tier, deep: bool, ops: Vec<Op>) -> BoxedScenario {
     // deep pass: core alphabet with the quick tier's finishing methods and configurations
-    let ops = if deep { core_ops_for(prop) } else { ops_for(prop) };
     let methods = methods_for(prop, if deep { Tier::Quick } else { tier });
     let configs = configs_for(prop, if deep { Tier::Quick } else { tier });
     Box::new(move |ctx: &mut Ctx| {
@@ -1420,6 +1448,7 @@ pub fn scenario_for(prop: &str, name: &str, tier: Tier) -> Option<BoxedScenario>
     match name {
         "builder" => Some(builder_scenario(stat, tier, false)),
         "builder_deep" => Some(builder_scenario(stat, tier, true)),
+        "builder_union" => Some(builder_scenario_over(stat, tier, true, union_ops_for(stat))),
         "leftover_sweep" if matches!(stat, "C05" | "C06" | "C07") => Some(leftover_sweep_scenario(stat, tier)),
         _ => None,
     }
@@ -1440,6 +1469,15 @@ pub fn explore_for(prop: &str, tier: Tier, seed: u64, rep: &mut Report) {
     rep.bound("builder_methods", serde_json::json!(methods_for(prop, tier).iter().map(|m| format!("{:?}", m)).collect::<Vec<_>>()));
     rep.bound("builder_configs", serde_json::json!(configs_for(prop, tier).iter().map(|c| config(*c).0).collect::<Vec<_>>()));
     rep.add("builder (BFS over operation histories)", &format!("all histories to depth {} with canonical-state dedup; every (method x config) in every state; RNG <= 1 deviation", depth), st);
+    {
+        let f = scenario_for(prop, "builder_union", tier).unwrap();
+        let uni = union_ops_for(prop);
+        let d = if tier.thorough() && !matches!(prop, "C05" | "C06" | "C07" | "C03") { 3 } else { 2 };
+        let st = bfs("builder_union", &*f, uni.len(), d, &opts);
+        rep.bound("builder_union_ops", serde_json::json!(uni.len()));
+        rep.bound("builder_union_history_depth", serde_json::json!(d));
+        rep.add("builder_union (BFS over the union of all builder alphabets)", &format!("all histories to depth {} over the {} operations of all builder properties together; quick tier's methods and configurations", d, uni.len()), st);
+    }
     if matches!(prop, "C05" | "C06" | "C07") {
         let f = scenario_for(prop, "leftover_sweep", tier).unwrap();
         let st = crate::engine::explore("leftover_sweep", &*f, &Opts::new(seed));
